@@ -404,6 +404,26 @@ pub fn c01_b_cells(tier: Tier) -> Vec<Value> {
             }
         }
     }
+    cells.extend(wrap_fault_cells(Role::Sender, &p, tier));
+    cells
+}
+
+/// one fault in the block-number wrap neighbourhood of a 65538-block transfer (the slice / ACK-implies-stored monitors with
+/// absolute block tracking apply there exactly as anywhere else)
+fn wrap_fault_cells(role: Role, props: &[&str], tier: Tier) -> Vec<Value> {
+    let mut cells = vec![];
+    let wss: &[u16] = if tier == Tier::Quick { &[4] } else { &[3, 4] };
+    for &ws in wss {
+        let mut x = base_cfg(role, 65537 * 8 + 3, 8, ws);
+        x.snapshot_tail = true;
+        let mut c = bcfg(x, true, true, false);
+        c.fault_window = Some((65530, 65541));
+        for sh in 0..6 {
+            let mut s = bspec(&c, 1, props);
+            s["shard"] = json!([sh, 6]);
+            cells.push(s);
+        }
+    }
     cells
 }
 
@@ -426,5 +446,6 @@ pub fn c02_b_cells(tier: Tier) -> Vec<Value> {
             cells.push(bspec(&c, f, &p));
         }
     }
+    cells.extend(wrap_fault_cells(Role::Receiver, &p, tier));
     cells
 }
